@@ -194,12 +194,13 @@ package runtime
 //@ frame taskFrame = ctx.loopBreak, ctx.loopContinue, ctx.procExit, ctx.stackCur, ctx.Regs,
 //@ | Stack.CheckPattern, Stack.Data, maptype(map[string]*Varb), Varb.Value, Varb.DType,
 //@ | maptype(map[string]*grok.GrokPattern),
-//@ | elemsof(any), maptype(map[string]any), pointFrame
+//@ | elemsof(any), maptype(map[string]any), pointFrame,
+//@ | errchain.PlError.PosChain, elemsof(errchain.Position)
 
 //@ frame pointFrame = alltype(input.Point), alltype(input.TFMeta), maptype(map[string]string), maptype(map[string]*input.TFMeta)
 
 //@ spec wfTask(ctx *Task) bool = ctx.stackCur != nil && ctx.stackCur.Data != nil && ctx.stackCur.depth >= 0
-//@ | && ctx.input != nil && ctx.Regs.count <= 6
+//@ | && ctx.input != nil && ctx.Regs.count == 0
 
 // module-wide type invariants (checked at every creation site in the swept packages,
 // assumed at every use): scope tables never hold a nil variable, function tables never
@@ -209,7 +210,7 @@ package runtime
 //@ typeinv[C01] box map[string]any nonnil
 
 // the return registers hold well-tagged values
-//@ spec wfRegs(ctx *Task) bool = ctx.Regs.count <= 6 && (forall i in 0..6 :: wfVal(ctx.Regs.r0r5[i], ctx.Regs.regsValDType[i]))
+//@ spec wfRegs(ctx *Task) bool = ctx.Regs.count <= 6 && (ctx.Regs.count > 0 ==> wfVal(ctx.Regs.r0r5[0], ctx.Regs.regsValDType[0]))
 
 //@ struct Varb
 //@ props C01 C03
@@ -256,11 +257,30 @@ package runtime
 //@ func (*Script).Run
 //@ props C01 C13 C14 C15
 //@ requires data != nil
+//@ ensures[C14,C15] s != nil ==> ncalls(InitCtx) == 1 && callarg(InitCtx, 0, 1) == data && callarg(InitCtx, 0, 2) == s && callarg(InitCtx, 0, 3) == signal
+//@ ensures[C13,C15] s != nil ==> ncalls(RunStmts) == 1 && callarg(RunStmts, 0, 0) == callres(InitCtx, 0, 0) && callarg(RunStmts, 0, 1) == old(s.Ast) && result == callres(RunStmts, 0, 0)
 //@ requires forall i :: 0 <= i && i < len(fn) ==> fn[i] != nil
 
+// what a run may write besides its own (fresh, pooled) task: variables and scope tables
+// (of its own scope chain), list/map contents, the shared point, error chains
+//@ frame sharedFrame = Stack.CheckPattern, Stack.Data, maptype(map[string]*Varb), Varb.Value, Varb.DType,
+//@ | maptype(map[string]*grok.GrokPattern), elemsof(any), maptype(map[string]any), pointFrame,
+//@ | errchain.PlError.PosChain, elemsof(errchain.Position)
+
+// use(): the callee runs in a task of its own - taken from the pool, never the caller's -
+// with a fresh scope, sharing only the caller's input point and cancellation signal; the
+// caller's task (flags, registers, scope cursor) is not written at all
 //@ func (*Script).RefRun
 //@ props C01 C13 C14
 //@ requires ctx.input != nil
+//@ modifies sharedFrame
+//@ ensures[C13,C14] s != nil ==> ncalls(GetContext) == 1 && ncalls(InitCtx) == 1 && ncalls(RunStmts) == 1
+//@ ensures[C13,C14] s != nil ==> callarg(InitCtx, 0, 0) == callres(GetContext, 0, 0) && callarg(InitCtx, 0, 1) == old(ctx.input) && callarg(InitCtx, 0, 2) == s && callarg(InitCtx, 0, 3) == old(ctx.signal)
+//@ ensures[C13,C14] s != nil ==> callarg(RunStmts, 0, 0) == callres(GetContext, 0, 0) && callarg(RunStmts, 0, 1) == old(s.Ast) && callres(GetContext, 0, 0) != ctx
+//@ ensures[C13] s != nil ==> result == callres(RunStmts, 0, 0)
+//@ ensures[C13] s == nil ==> result == nil
+// the scopes pushed and popped by the callee belong to the callee's own task
+//@ assume oldsame(Stack.Data)
 
 //@ func InitCtx
 //@ props C01 C15
@@ -274,13 +294,15 @@ package runtime
 // the task pool only ever holds *Task objects (see PutContext / ctxPool.New)
 //@ extern sync.(*Pool).Get
 //@ modifies nothing
-//@ ensures p == addr(ctxPool) ==> typeis(result, *Task) && result.(*Task) != nil && result.(*Task).Regs.count <= 6
+//@ ensures p == addr(ctxPool) ==> typeis(result, *Task) && result.(*Task) != nil && fresh(result.(*Task)) && result.(*Task).Regs.count <= 6
 
 //@ extern sync.(*Pool).Put
 //@ modifies nothing
 
 //@ func GetContext
 //@ props C01 C15
+//@ modifies nothing
+//@ ensures fresh(result)
 //@ ensures result != nil && result.stackCur != nil && result.stackCur == result.stackHeader && fresh(result.stackCur)
 //@ ensures result.stackCur.Data != nil && result.stackCur.Before == nil && result.Regs.count <= 6
 
@@ -358,10 +380,10 @@ package runtime
 //@ func (*PlReg).ReturnAppend
 //@ props C01 C11
 //@ requires reg.count <= 6 && wfVal(val, dtype)
-//@ requires forall i in 0..6 :: wfVal(reg.r0r5[i], reg.regsValDType[i])
 //@ modifies all(reg)
-//@ ensures reg.count <= 6
-//@ ensures forall i in 0..6 :: wfVal(reg.r0r5[i], reg.regsValDType[i])
+//@ ensures reg.count <= 6 && reg.count >= old(reg.count) && (old(reg.count) < 6 ==> reg.count == old(reg.count) + 1)
+//@ ensures old(reg.count) == 0 ==> reg.r0r5[0] == val && reg.regsValDType[0] == dtype
+//@ ensures old(reg.count) > 0 ==> reg.r0r5[0] == old(reg.r0r5[0]) && reg.regsValDType[0] == old(reg.regsValDType[0])
 
 //@ func NewRunError
 //@ props C01 C17
@@ -375,7 +397,7 @@ package runtime
 //@ ensures result2 == nil ==> wfVal(result0, result1)
 //@ ensures ctx.stackCur != nil && ctx.stackCur.depth >= old(ctx.stackCur.depth)
 //@ ensures result2 == nil ==> ctx.stackCur == old(ctx.stackCur) && oldsame(Stack.Data)
-//@ ensures ctx.Regs.count <= 6
+//@ ensures ctx.Regs.count == 0
 
 //@ func RunStmts
 //@ props C01 C03 C13 C14
@@ -383,7 +405,7 @@ package runtime
 //@ modifies taskFrame
 //@ ensures ctx.stackCur != nil && ctx.stackCur.depth >= old(ctx.stackCur.depth)
 //@ ensures result == nil ==> ctx.stackCur == old(ctx.stackCur) && oldsame(Stack.Data)
-//@ ensures ctx.Regs.count <= 6
+//@ ensures ctx.Regs.count == 0
 //@ loop 1
 //@ invariant ctx.stackCur == old(ctx.stackCur) && wfTask(ctx) && oldsame(Stack.Data)
 
@@ -430,45 +452,54 @@ package runtime
 
 //@ func RunUnaryExpr
 //@ like RunStmt
+//@ ensures ctx.stackCur == old(ctx.stackCur) && oldsame(Stack.Data)
 //@ props C01 C02
 //@ intmode bv64
 
 //@ func RunListInitExpr
 //@ like RunStmt
+//@ ensures ctx.stackCur == old(ctx.stackCur) && oldsame(Stack.Data)
 //@ props C01 C04
 //@ loop 1
 //@ invariant wfTask(ctx) && ctx.stackCur == old(ctx.stackCur) && oldsame(Stack.Data) && (old(ctx.procExit) ==> ctx.procExit)
 
 //@ func RunMapInitExpr
 //@ like RunStmt
+//@ ensures ctx.stackCur == old(ctx.stackCur) && oldsame(Stack.Data)
 //@ props C01 C04
 //@ loop 1
 //@ invariant wfTask(ctx) && ctx.stackCur == old(ctx.stackCur) && oldsame(Stack.Data) && (old(ctx.procExit) ==> ctx.procExit)
 
 //@ func RunIndexExprGet
 //@ like RunStmt
+//@ ensures ctx.stackCur == old(ctx.stackCur) && oldsame(Stack.Data)
 //@ props C01 C04
 
 //@ func searchListAndMap
 //@ like RunStmt
+//@ ensures ctx.stackCur == old(ctx.stackCur) && oldsame(Stack.Data)
 //@ props C01 C04
 //@ loop 1
 //@ invariant wfTask(ctx) && ctx.stackCur == old(ctx.stackCur) && oldsame(Stack.Data) && (old(ctx.procExit) ==> ctx.procExit)
 
 //@ func RunParenExpr
 //@ like RunStmt
+//@ ensures ctx.stackCur == old(ctx.stackCur) && oldsame(Stack.Data)
 //@ props C01
 
 //@ func RunInExpr
 //@ like RunStmt
+//@ ensures ctx.stackCur == old(ctx.stackCur) && oldsame(Stack.Data)
 //@ props C01 C02 C04
 
 //@ func RunConditionExpr
 //@ like RunStmt
+//@ ensures ctx.stackCur == old(ctx.stackCur) && oldsame(Stack.Data)
 //@ props C01 C02
 
 //@ func RunArithmeticExpr
 //@ like RunStmt
+//@ ensures ctx.stackCur == old(ctx.stackCur) && oldsame(Stack.Data)
 //@ props C01 C02
 
 //@ func runAssignArith
@@ -480,10 +511,12 @@ package runtime
 
 //@ func RunAssignmentExpr
 //@ like RunStmt
+//@ ensures ctx.stackCur == old(ctx.stackCur) && oldsame(Stack.Data)
 //@ props C01 C03 C04
 
 //@ func changeListOrMapValue
 //@ like RunStmt
+//@ ensures ctx.stackCur == old(ctx.stackCur) && oldsame(Stack.Data)
 //@ props C01 C04
 //@ requires wfVal(val, dtype)
 //@ loop 1
@@ -491,10 +524,12 @@ package runtime
 
 //@ func RunCallExpr
 //@ like RunStmt
+//@ ensures ctx.stackCur == old(ctx.stackCur) && oldsame(Stack.Data)
 //@ props C01 C11
 
 //@ func RunSliceExpr
 //@ like RunStmt
+//@ ensures ctx.stackCur == old(ctx.stackCur) && oldsame(Stack.Data)
 //@ props C01 C04
 //@ intmode bv64
 //@ loop 1
@@ -663,6 +698,8 @@ package runtime
 //@ invariant[C13,C14] old(ctx.procExit) ==> ctx.procExit
 
 //@ func RunStmt
+// evaluating an expression never leaves a scope behind, even when it fails
+//@ ownensures !ast.isStmtKind(node) ==> ctx.stackCur == old(ctx.stackCur) && oldsame(Stack.Data)
 // a statement (as opposed to an expression operand) starts only while the script has not exited
 //@ ownrequires[C13,C14] ast.isStmtKind(node) ==> !ctx.procExit
 //@ ensures[C13,C14] old(ctx.procExit) ==> ctx.procExit
@@ -720,3 +757,22 @@ package runtime
 //@ requires[C13,C14] forall i :: 0 <= i && i < len(index) ==> !ast.isStmtKind(index[i])
 //@ func changeListOrMapValue
 //@ requires[C13,C14] forall i :: 0 <= i && i < len(index) ==> !ast.isStmtKind(index[i])
+
+//@ func (*Task).InData
+//@ props C01 C11
+//@ pure
+//@ ensures result == any(ctx.input)
+
+//@ func (*Task).Name
+//@ props C01 C17
+//@ pure
+//@ ensures result == ctx.name
+
+//@ func (*Task).SetExit
+//@ props C01 C13
+//@ modifies ctx.procExit
+//@ ensures ctx.procExit
+
+//@ functype FuncCheck
+//@ params ctx expr
+//@ requires ctx != nil && expr != nil
